@@ -206,8 +206,8 @@ def norm_codes(errs):
 def select(recs, tier, rng):
     """quick: one hazardous behaviour per (family, path, escape route) cell -- and per receiver kind for the
     representative families --, every thread / settings behaviour, and a sample of safe behaviours; thorough: all."""
-    if tier == "thorough":
-        return recs
+    if tier == "thorough":      # every hazardous behaviour; a third of the safe ones (they only feed drift detection)
+        return [r for r in recs if r["hazard"] or r["fam"] == "" or rng.random() < 0.34]
     rep = {"alloc", "alloc_cstr", "alloc_iter_mut", "alloc_try_with", "stats", "any_stats", "vec_into_slice", "vec_keep",
            "mutvec_into_boxed_slice", "mutvec_keep"}
     cells = collections.OrderedDict()
